@@ -487,6 +487,26 @@ func returnsCallDirectly(call *ssa.Call) bool {
 	if call.Referrers() == nil {
 		return false
 	}
+	// `return f()` with a multi-value f: every component is extracted into the same return, in order
+	if n := call.Common().Signature().Results().Len(); n > 1 {
+		var ret *ssa.Return
+		cnt := 0
+		for _, r := range *call.Referrers() {
+			ex, ok := r.(*ssa.Extract)
+			if !ok || ex.Referrers() == nil {
+				return false
+			}
+			for _, rr := range *ex.Referrers() {
+				rt := returnFedBy(ex, rr, ex.Index)
+				if rt == nil || (ret != nil && rt != ret) {
+					return false
+				}
+				ret = rt
+				cnt++
+			}
+		}
+		return ret != nil && cnt == n
+	}
 	for _, r := range *call.Referrers() {
 		if ret, ok := r.(*ssa.Return); ok {
 			for _, res := range ret.Results {
@@ -564,4 +584,45 @@ func reachableAvoiding(from, avoid *ssa.BasicBlock) bool {
 		return false
 	}
 	return walk(from)
+}
+
+// returnFedBy: referrer `use` of value v hands v to position idx of a Return, either directly or through the
+// function's spilled result variable (`*res = v; ...; t = *res; return ..., t`) within one block.
+func returnFedBy(v ssa.Value, use ssa.Instruction, idx int) *ssa.Return {
+	switch u := use.(type) {
+	case *ssa.Return:
+		if idx < len(u.Results) && u.Results[idx] == v {
+			return u
+		}
+	case *ssa.Store:
+		if u.Val != v {
+			return nil
+		}
+		al := allocOf(u.Addr)
+		if al == nil {
+			return nil
+		}
+		after := false
+		for _, in := range u.Block().Instrs {
+			if in == ssa.Instruction(u) {
+				after = true
+				continue
+			}
+			if !after {
+				continue
+			}
+			if st, ok := in.(*ssa.Store); ok && allocOf(st.Addr) == al {
+				return nil
+			}
+			if rt, ok := in.(*ssa.Return); ok {
+				if idx < len(rt.Results) {
+					if l, ok := rt.Results[idx].(*ssa.UnOp); ok && l.Op == token.MUL && allocOf(l.X) == al {
+						return rt
+					}
+				}
+				return nil
+			}
+		}
+	}
+	return nil
 }
